@@ -11,7 +11,14 @@ func DecodeSecret(secret string) ([]byte, error) {
 		secret = secret + strings.Repeat("=", 8-n)
 	}
 
-	secret = strings.ToUpper(secret)
+	// Upper-case ASCII letters only: strings.ToUpper also maps the non-ASCII
+	// letters U+017F and U+0131 to 'S' and 'I', i.e. into the base32 alphabet.
+	secret = strings.Map(func(r rune) rune {
+		if r >= 'a' && r <= 'z' {
+			return r - ('a' - 'A')
+		}
+		return r
+	}, secret)
 
 	return base32.StdEncoding.DecodeString(secret)
 }
